@@ -510,7 +510,11 @@ func (c *client) receive(r io.Reader) (err error) {
 		return ServerError{fmt.Errorf("got a response with an unexpected call ID: %d", callID)}
 	}
 	if err := c.inFlightDown(); err != nil {
-		return ServerError{err}
+		// We have unregistered the rpc, so nobody else is going to
+		// complete it: fail it here, otherwise its caller waits forever.
+		err = ServerError{err}
+		returnResult(rpc, nil, err)
+		return err
 	}
 
 	select {
